@@ -600,6 +600,9 @@ def plain : PExpr → Bool
 
 end PExpr
 
+/-- the prefix operators covered by the theorems (`++`/`--`, casts: model and correspondence only) -/
+def plainPrefix (s : Str) : Bool := s = ['-'] || s = ['!'] || s = ['~'] || s = ['*'] || s = ['&']
+
 /-- `e` is derivable from the non-terminal of the level list `ls` (top of `ls` = the level itself, `[]` = the
 operand level).  `pp = false`: the expression grammar as such (the middle operand of `?:` is a full
 expression).  `pp = true`: token strings after prepareTernaryOpForAST (the middle operand is `topFree`). -/
@@ -622,6 +625,7 @@ def Gram (L : Ladder) (pp : Bool) : List Level → PExpr → Bool
       Gram L pp below c &&
       (if pp then t.topFree && Gram L pp (lv :: below) t else Gram L pp L.levels t) &&
       Gram L pp (lv :: below) e
-  | _, _ => false     -- second stage: see AstUnary
+  | _, .pre op e => plainPrefix op && Gram L pp [] e        -- unary-expression: - ! ~ * & applied to a cast-expression
+  | _, _ => false     -- rest of the second stage: modelled and correspondence-checked only
 
 end Cppcheck.AstLadder
